@@ -144,6 +144,9 @@ pub enum ReadSchedule {
     Interrupting { chunks: Vec<usize>, every: usize },
     /// error once `k` bytes have been delivered
     FailAt { k: usize, kind: io::ErrorKind },
+    /// deliver up to `k` bytes (a short read if a call straddles `k`), fail once with `kind`, then go on
+    /// delivering the rest: a reader that is "not ready" once (WouldBlock, TimedOut)
+    FailOnceAt { k: usize, kind: io::ErrorKind },
 }
 
 pub struct FaultyReader<'a> {
@@ -184,6 +187,17 @@ impl Read for FaultyReader<'_> {
                     return Err(io::Error::new(kind, "injected read failure"));
                 }
                 room.min(left).min(buf.len())
+            }
+            ReadSchedule::FailOnceAt { k, kind } => {
+                if self.pos == k && !self.interrupted_next {
+                    self.interrupted_next = true;
+                    return Err(io::Error::new(kind, "injected one-shot read failure"));
+                }
+                if self.pos < k {
+                    (k - self.pos).min(left).min(buf.len())
+                } else {
+                    left.min(buf.len())
+                }
             }
         };
         buf[..n].copy_from_slice(&self.data[self.pos..self.pos + n]);
